@@ -211,6 +211,26 @@ Proof. vm_compute. reflexivity. Qed.
 Example C10_ex_nan_bound :
   from_words nan_oracle (CFloat (mknconv (Some NNaN) None true)) (w1 "1") = UErr (s_ "BelowMin") [] 1.
 Proof. vm_compute. reflexivity. Qed.
+(* bound-violation messages no longer fail to format (repaired: hex() beyond the digit limit, str() for inf/nan) *)
+Definition big_oracle : str -> option evr :=
+  lookup_ev [(s_ "10**4300", ENum (NInt (10 ^ 4300))); (s_ "-10**4300", ENum (NInt (- 10 ^ 4300)))].
+Example C10_ex_huge_above :
+  from_words big_oracle (CInt (mknconv None (Some (NInt 3)) true)) (w1 "10**4300") = UErr (s_ "AboveMax") [] 1.
+Proof. vm_compute. reflexivity. Qed.
+Example C10_ex_huge_below_elem :
+  from_words big_oracle (CInts (mklconv None None (Some (NInt 0)) None false false)) (w1 "1 -10**4300") = UErr (s_ "BelowMin") [] 1.
+Proof. vm_compute. reflexivity. Qed.
+Example C10_ex_inf_bound :
+  from_words big_oracle (CInt (mknconv (Some (NInf false)) None true)) (w1 "3") = UErr (s_ "BelowMin") [] 1.
+Proof. vm_compute. reflexivity. Qed.
+Example C10_ex_huge_float_bound :
+  from_words big_oracle (CFloat (mknconv (Some (NInt (10 ^ 400))) None true)) (w1 "1") = UErr (s_ "BelowMin") [] 1
+  /\ from_words big_oracle (CFloat (mknconv (Some (NInt (10 ^ 4300))) None true)) (w1 "1") = UErr (s_ "BelowMin") [] 1.
+Proof. vm_compute. split; reflexivity. Qed.
+Example C10_ex_value_as_str :
+  fmt_d (NInt 255) = Ok (s_ "255") /\ py_hex (-255) = s_ "-0xff" /\ py_hex 0 = s_ "0x0" /\
+  fmt_d (NInf true) = Ok (s_ "-inf") /\ fmt_d NNaN = Ok (s_ "nan") /\ fmt_d (NBool true) = Ok (s_ "1").
+Proof. vm_compute. repeat split; reflexivity. Qed.
 Example C10_ex_huge_float :
   from_words nan_oracle (CFloat (mknconv None None true)) (w1 "10**400") = UErr (s_ "NotFloat") [] 1.
 Proof. vm_compute. reflexivity. Qed.
